@@ -221,60 +221,6 @@ type job struct {
 	fork int
 }
 
-func helpersFor(r *rand.Rand) map[common.Address][]byte {
-	h := map[common.Address][]byte{}
-	for _, a := range ek.Helpers {
-		switch r.Intn(5) {
-		case 0:
-			h[a] = ek.StateWriter(r)
-		case 1:
-			h[a] = ek.CallMix(r)
-		case 2:
-			h[a] = ek.RandomOps(r, 5+r.Intn(20))
-		case 3:
-			h[a] = ek.MemoryProbe(r)
-		default:
-			h[a] = ek.RandomBytes(r)
-		}
-	}
-	return h
-}
-
-func genProgram(r *rand.Rand) *ek.Program {
-	p := &ek.Program{Helpers: helpersFor(r)}
-	in := make([]byte, r.Intn(70))
-	r.Read(in)
-	p.Input = in
-	if r.Intn(4) == 0 {
-		p.Value = uint64(r.Intn(3))
-	}
-	switch k := r.Intn(20); {
-	case k < 3:
-		p.Name, p.Code = "bytes", ek.RandomBytes(r)
-	case k < 8:
-		p.Name, p.Code = "ops", ek.RandomOps(r, 5+r.Intn(60))
-	case k < 11:
-		p.Name, p.Code = "mem", ek.MemoryProbe(r)
-	case k < 14:
-		p.Name, p.Code = "calls", ek.CallMix(r)
-	case k < 16:
-		p.Name, p.Code = "state", ek.StateWriter(r)
-	case k < 18:
-		p.Name, p.Code = "creator", ek.Creator(r)
-	case k < 19:
-		p.Name, p.Code = "flood", ek.PushFlood(r, 1015+r.Intn(14))
-	default:
-		p.Name, p.Code, p.Create = "initcode", ek.Initcode(nil, ek.StateWriter(r)), true
-		if r.Intn(2) == 0 {
-			p.Code = ek.Creator(r)
-		}
-	}
-	if !p.Create && r.Intn(12) == 0 {
-		p.Create = true // any program as initcode
-	}
-	return p
-}
-
 func gasFor(r *rand.Rand) uint64 {
 	switch r.Intn(10) {
 	case 0:
@@ -348,7 +294,7 @@ func runRecord(path string, seed int64, n, maxEvents, deep int, sum *tl.Summary)
 	}
 
 	for i := 0; i < n; i++ {
-		p := genProgram(r)
+		p := ek.GenProgram(r)
 		gas := gasFor(r)
 		via := r.Intn(numVia)
 		// every program under a (seeded) choice of rule sets; each rule set is hit evenly over the run
